@@ -100,16 +100,13 @@ fn c18c_lzma_finish_short_no_marker() { lzma_finish_short(false); }
 #[kani::stub(crate::enc::encoder::LZMAEncoder::new, crate::enc::encoder::verif_stubs_enc::verif_cheap_encoder)]
 fn c18c_lzma_finish_short_with_marker() { lzma_finish_short(true); }
 
-use crate::Read;
-
-// C01 / C16-A (whole pipeline, one symbol): the REAL LZMAWriter codes one arbitrary byte (literal) and finishes; the
-// REAL LZMAReader decodes it back and has then consumed exactly the bytes the writer produced - with a declared size
-// (no end marker) and with an end marker.
-fn lzma1_one_literal(end_marker: bool, b: u8) {
-    // The coded byte is CONCRETE: the length of the encoder's output depends on it, and a symbolic source length on
-    // the reader side makes CBMC walk every symbol kind (did not finish in 40 min).  Symbolic: the foreign byte that
-    // follows the stream.  From fresh probabilities one literal leaves range < 2^24, so the decoder's trailing
-    // normalize() - the thing C16 is about here - is exercised for every byte value.
+// C01 / C16-A / C03 (writer half of the one-literal pipeline): the REAL LZMAWriter codes one literal and finishes; the
+// bytes it produced are exactly the canonical raw LZMA1 stream for that input (the sequence liblzma's encoder emits;
+// the reader half - c16a_lzma1_reader_one_literal_* in lzma_reader.rs - decodes exactly these bytes and stops exactly
+// after them).  (The whole pipeline in one harness - writer, then reader over the writer's sink - did not finish in
+// 25 min even with a concrete input byte: the byte travels through the 4 KiB LZ window, which CBMC does not
+// constant-fold.)
+fn lzma1_writer_one_literal<const L: usize>(end_marker: bool, b: u8, want: [u8; L]) {
     let o = LZMAOptions::new(4096, 0, 0, 0, EncodeMode::Fast, 32, MFType::HC4, 4);
     let mut sink = Sink::<48>::new();
     let mut w = LZMAWriter::new_no_header(&mut sink, &o, end_marker).unwrap();
@@ -117,34 +114,25 @@ fn lzma1_one_literal(end_marker: bool, b: u8) {
     let fin = w.finish();
     assert!(fin.is_ok());
     core::mem::forget(fin);
-    let produced = sink.len;
-    assert!(produced >= 5);
-    // a trailing byte that does not belong to the stream follows it
-    let mut buf = sink.buf;
-    buf[produced] = kani::any();
-    let mut src = Src::<48>::new(buf, produced + 1);
-    let size = if end_marker { u64::MAX } else { 1 };
-    let mut r = crate::LZMAReader::new(&mut src, size, 0, 0, 0, 4096, None).unwrap();
-    let mut out = [0u8; 4];
-    let n = r.read(&mut out);
-    assert!(matches!(n, Ok(1)) && out[0] == b, "C01: one literal does not round-trip through LZMAWriter/LZMAReader");
-    let n2 = r.read(&mut out);
-    assert!(matches!(n2, Ok(0)), "C16: end of stream not reported after the last byte");
-    core::mem::forget(r);
-    assert!(src.pos == produced, "C16-A: reader did not stop exactly at the end of the LZMA stream");
+    assert!(sink.len == L, "C16-A: LZMAWriter produced a stream of a different length than the canonical one");
+    let mut i = 0;
+    while i < L {
+        assert!(sink.buf[i] == want[i], "C01/C03: LZMAWriter's one-literal stream differs from the canonical LZMA1 stream");
+        i += 1;
+    }
     kani::cover!(true, "end reached");
 }
 
-//@ {"name":"c16a_lzma1_one_literal_declared_size","props":["C16","C01"],"obligation":"C16-A","timeout":2400,"mem_gb":13,"functions":["enc::lzma_writer::LZMAWriter::new_no_header","enc::lzma_writer::LZMAWriter::write","enc::lzma_writer::LZMAWriter::finish","enc::encoder::LZMAEncoder::encode_for_lzma1","enc::encoder::LZMAEncoder::encode_init","enc::encoder::LiteralSubEncoder::encode","enc::range_enc::RangeEncoder::finish","lzma_reader::LZMAReader::new","lzma_reader::LZMAReader::read_decode","decoder::LZMADecoder::decode","decoder::LiteralSubDecoder::decode","lz::lz_decoder::LZDecoder::flush"],"bounds":"input byte 0x41 (concrete); lc=lp=pb=0, dict 4096, Fast/HC4; declared size 1, no end marker; one ARBITRARY foreign byte after the stream; unwind 14","assumes":["LZMAEncoder::new / LZMADecoder::new replaced by their literal-built stubs (natively compared with the real constructors)"],"stubs":["LZMAEncoder::new -> verif_cheap_encoder","LZMADecoder::new -> verif_fresh_decoder"]}
+//@ {"name":"c16a_lzma1_writer_one_literal_declared_size","props":["C16","C01","C03"],"no_inputs":true,"obligation":"C16-A","timeout":1800,"mem_gb":13,"functions":["enc::lzma_writer::LZMAWriter::new_no_header","enc::lzma_writer::LZMAWriter::write","enc::lzma_writer::LZMAWriter::finish","enc::encoder::LZMAEncoder::encode_for_lzma1","enc::encoder::LZMAEncoder::encode_init","enc::encoder::LiteralSubEncoder::encode","enc::range_enc::RangeEncoder::finish"],"bounds":"input byte 0x41 (concrete); lc=lp=pb=0, dict 4096, Fast/HC4; no end marker; expected 00 20 7f fc 00 00; unwind 14","assumes":["LZMAEncoder::new replaced by its literal-built stub (natively compared with the real constructor)"],"stubs":["LZMAEncoder::new -> verif_cheap_encoder"]}
 #[kani::proof]
 #[kani::unwind(14)]
 #[kani::stub(crate::enc::encoder::LZMAEncoder::new, crate::enc::encoder::verif_stubs_enc::verif_cheap_encoder)]
-#[kani::stub(crate::decoder::LZMADecoder::new, crate::decoder::verif_stubs_dec::verif_fresh_decoder)]
-fn c16a_lzma1_one_literal_declared_size() { lzma1_one_literal(false, 0x41); }
+fn c16a_lzma1_writer_one_literal_declared_size() { lzma1_writer_one_literal(false, 0x41, [0x00, 0x20, 0x7f, 0xfc, 0x00, 0x00]); }
 
-//@ {"name":"c16a_lzma1_one_literal_end_marker","props":["C16","C01"],"obligation":"C16-A","timeout":5400,"mem_gb":18,"functions":["enc::lzma_writer::LZMAWriter::finish","enc::encoder::LZMAEncoder::encode_lzma1_end_marker","enc::encoder::LZMAEncoder::encode_match","lzma_reader::LZMAReader::read_decode","decoder::LZMADecoder::decode_match","decoder::LZMADecoder::end_marker_detected"],"bounds":"input byte 0x41 (concrete) followed by the end marker (about 45 coded bits); one arbitrary foreign byte after the stream; lc=lp=pb=0; unwind 34","assumes":["constructor stubs as above"],"stubs":["LZMAEncoder::new -> verif_cheap_encoder","LZMADecoder::new -> verif_fresh_decoder"]}
+//@ {"name":"c16a_lzma1_writer_one_literal_end_marker","props":["C16","C01","C03"],"no_inputs":true,"tier":"thorough","obligation":"C16-A","timeout":5400,"mem_gb":18,"functions":["enc::lzma_writer::LZMAWriter::finish","enc::encoder::LZMAEncoder::encode_lzma1_end_marker","enc::encoder::LZMAEncoder::encode_match"],"bounds":"input byte 0x41 (concrete) followed by the end marker; expected 00 20 c3 eb ff ff ff e1 00 00 00; lc=lp=pb=0; unwind 34","assumes":["constructor stub as above"],"stubs":["LZMAEncoder::new -> verif_cheap_encoder"]}
 #[kani::proof]
 #[kani::unwind(34)]
 #[kani::stub(crate::enc::encoder::LZMAEncoder::new, crate::enc::encoder::verif_stubs_enc::verif_cheap_encoder)]
-#[kani::stub(crate::decoder::LZMADecoder::new, crate::decoder::verif_stubs_dec::verif_fresh_decoder)]
-fn c16a_lzma1_one_literal_end_marker() { lzma1_one_literal(true, 0x41); }
+fn c16a_lzma1_writer_one_literal_end_marker() {
+    lzma1_writer_one_literal(true, 0x41, [0x00, 0x20, 0xc3, 0xeb, 0xff, 0xff, 0xff, 0xe1, 0x00, 0x00, 0x00]);
+}
